@@ -214,6 +214,7 @@ Record ginv (s : cst) : Prop := {
   i_nodup : NoDup (pages_of (g_freed s));
   i_cross : forall A pa F pf p, In (A, pa) (g_alloc s) -> In (F, pf) (g_freed s) -> In p pa -> In p pf -> A < F;
   i_keys : forall F pf, In (F, pf) (g_freed s) -> (F <= g_last s \/ F = g_txid s) /\ F <= g_txid s;
+  i_akeys : forall A pa, In (A, pa) (g_alloc s) -> A <= g_txid s;
   i_live : forall r, In r (g_live s) -> r <= g_last s;
   i_last_lo : g_pc s < 6 -> g_last s < g_txid s;
   i_last_hi : 6 <= g_pc s -> g_txid s <= g_last s;
@@ -362,6 +363,7 @@ Proof.
   { intros e. destruct (oldest_sp s); [intro He; apply in_above in He; tauto | simpl; tauto]. }
   constructor; simpl; try solve [apply H]; unfold alloc_ok, alloc_ok_mid; simpl; rewrite ?Epc; try solve [intros; lia].
   - intros A pa F pf p Ha. apply Hsub in Ha. eapply (i_cross s H); eauto.
+  - intros A pa Ha. apply Hsub in Ha. eapply (i_akeys s H); eauto.
   - intro. apply (i_last_lo s H). lia.
   - intros _. split; [|split].
     + intros A pa p Ha Hp. destruct (in_dec N.eq_dec p (g_allocated s)) as [Hal|Hn]; [assumption|exfalso].
@@ -562,6 +564,9 @@ Proof.
     destruct x; simpl in E; try discriminate.
     destruct (reader_of t (g_readers s)) as [r|] eqn:Hr; [|discriminate].
     inversion E; subst. eapply step_release_reader; eauto.
+  - (* the second section of a Savepoint::drop begun during an earlier commit *)
+    destruct x; simpl in E; try discriminate.
+    destruct (memN t0 (g_mid s)) eqn:Hm; [|discriminate]. inversion E; subst. apply step_dealloc_read; assumption.
 Qed.
 
 Lemma ginv_safe : forall s, ginv s -> safe s0 s.
@@ -581,15 +586,26 @@ End Inv.
 Lemma cnt_nil : forall x, cnt x [] = 0%nat.
 Proof. reflexivity. Qed.
 
-Lemma wf_init_ginv : forall s, wf_init s -> ginv s s.
+(* the general starting condition (Savepoint::drop calls between their sections, reader threads holding reads) *)
+Lemma wf_start_ginv : forall s, wf_start s -> ginv s s.
 Proof.
-  intros s W. destruct W as [Wpc [Wr [Wm [Wg1 Wg2]]] Wpins Wmono Wnd Wcross Wkeys Wlive Wlast Wfa Waa].
+  intros s W. destruct W as [Wpc [Wg1 Wg2] Wpins Wmono Wnd Wcross Wkeys Wakeys Wlive Wlast Wfa Waa].
   constructor; unfold gone; rewrite ?Wpc, ?Wg1, ?Wg2; simpl; try assumption; try solve [intros; lia]; try solve [intros; contradiction].
-  - intro x. unfold owners. rewrite Wpins, Wr, Wm. rewrite !cnt_app. simpl. rewrite cnt_nil. lia.
   - intros F pf Hf. pose proof (Wkeys F pf Hf). lia.
+  - intros A pa Ha. pose proof (Wakeys A pa Ha). lia.
   - auto.
   - auto.
 Qed.
+
+Lemma wf_init_start : forall s, wf_init s -> wf_start s.
+Proof.
+  intros s W. destruct W as [Wpc [Wr [Wm [Wg1 Wg2]]] Wpins Wmono Wnd Wcross Wkeys Wakeys Wlive Wlast Wfa Waa].
+  constructor; auto.
+  intro x. rewrite Wpins, Wr, Wm. unfold cntN. simpl. lia.
+Qed.
+
+Lemma wf_init_ginv : forall s, wf_init s -> ginv s s.
+Proof. intros s W. apply wf_start_ginv. apply wf_init_start. exact W. Qed.
 
 (* epilogue_horizon_safe: after every schedule of one committer against any number of Savepoint droppers and readers *)
 Theorem epilogue_horizon_safe : forall s0 progs sched, wf_init s0 -> safe s0 (gfinal faithful sched progs s0).
@@ -605,6 +621,110 @@ Qed.
 Corollary epilogue_horizon_safe_prefix : forall s0 progs sched n, wf_init s0 ->
   safe s0 (gfinal faithful (firstn n sched) progs s0).
 Proof. intros; apply epilogue_horizon_safe; assumption. Qed.
+
+(* the same from the general starting condition *)
+Theorem epilogue_horizon_safe_start : forall s0 progs sched, wf_start s0 -> safe s0 (gfinal faithful sched progs s0).
+Proof.
+  intros s0 progs sched W. apply ginv_safe. unfold gfinal, grun.
+  apply (run_inv cst gcall gstep gstep unit gsteps_of gname (gexec faithful) genter gresult (ginv s0)).
+  - intros t c x s s' k Hi He. eapply gexec_inv; eauto.
+  - intros; assumption.
+  - apply wf_start_ginv; assumption.
+Qed.
+
+Lemma gfinal_ginv : forall s0 progs sched, wf_start s0 -> ginv s0 (gfinal faithful sched progs s0).
+Proof.
+  intros s0 progs sched W. unfold gfinal, grun.
+  apply (run_inv cst gcall gstep gstep unit gsteps_of gname (gexec faithful) genter gresult (ginv s0)).
+  - intros t c x s s' k Hi He. eapply gexec_inv; eauto.
+  - intros; assumption.
+  - apply wf_start_ginv; assumption.
+Qed.
+
+(* ---------------------------------------------------------------- one commit re-establishes the precondition of the next *)
+Lemma in_pages_of_app : forall a b p, In p (pages_of (a ++ b)) <-> In p (pages_of a) \/ In p (pages_of b).
+Proof. intros. unfold pages_of. rewrite flat_map_app, in_app_iff. tauto. Qed.
+
+Lemma nodup_app_intro : forall (a b : list N), NoDup a -> NoDup b -> (forall x, In x a -> ~ In x b) -> NoDup (a ++ b).
+Proof.
+  induction a as [|x a IH]; simpl; intros b Ha Hb Hd; [assumption|].
+  inversion Ha; subst. constructor.
+  - intro Hin. apply in_app_or in Hin as [Hin|Hin]; [contradiction|]. apply (Hd x); auto.
+  - apply IH; auto.
+Qed.
+
+(* commit_reestablishes_start: at the end of a commit (the committer has returned: pc = 15), whatever the schedule was, the
+   invariant gives the starting condition of the next transaction's commit -- new id, pc = 0, committer's locals and
+   observations cleared, the next transaction's own records added *)
+Theorem commit_reestablishes_start : forall s0 e n,
+  ginv s0 e -> g_pc e = 15 -> next_ok e n -> wf_start (gnext e n).
+Proof.
+  intros s0 e n H Hpc [Ntx Nnd Nfr Nfresh Nal].
+  pose proof (i_last_hi s0 e H ltac:(lia)) as Hhi.
+  destruct (i_post s0 e H ltac:(lia)) as [Hok _].
+  constructor; simpl.
+  - reflexivity.
+  - split; reflexivity.
+  - intro x. pose proof (i_pins s0 e H x) as Hp. unfold owners, cnt in Hp. unfold cntN. exact Hp.
+  - apply H.
+  - unfold pages_of. rewrite flat_map_app. simpl. rewrite app_nil_r. apply nodup_app_intro.
+    + apply (i_nodup s0 e H).
+    + exact Nnd.
+    + intros x Hx Hx'. destruct (Nfr x Hx') as [_ Hn]. apply Hn. exact Hx.
+  - intros A pa F pf p Ha Hf Hpa Hpf.
+    apply in_app_or in Ha as [Ha|Ha]; apply in_app_or in Hf as [Hf|Hf].
+    + eapply (i_cross s0 e H); eauto.
+    + destruct Hf as [Hf|[]]. inversion Hf; subst. pose proof (i_akeys s0 e H A pa Ha). lia.
+    + destruct Ha as [Ha|[]]. inversion Ha; subst. exfalso.
+      apply (Nfresh p (Nal p Hpa)). eapply (i_freed_alloc s0 e H); eauto.
+    + destruct Ha as [Ha|[]]. destruct Hf as [Hf|[]]. inversion Ha; inversion Hf; subst. exfalso.
+      apply (Nfresh p (Nal p Hpa)). apply (Nfr p Hpf).
+  - intros F pf Hf. apply in_app_or in Hf as [Hf|Hf].
+    + left. destruct (i_keys s0 e H F pf Hf) as [_ K]. lia.
+    + destruct Hf as [Hf|[]]. inversion Hf. right. reflexivity.
+  - intros A pa Ha. apply in_app_or in Ha as [Ha|Ha].
+    + left. pose proof (i_akeys s0 e H A pa Ha). lia.
+    + destruct Ha as [Ha|[]]. inversion Ha. right. reflexivity.
+  - apply H.
+  - exact Ntx.
+  - intros F pf p Hf Hp. apply in_or_app. apply in_app_or in Hf as [Hf|Hf].
+    + left. eapply (i_freed_alloc s0 e H); eauto.
+    + destruct Hf as [Hf|[]]. inversion Hf; subst. left. apply (Nfr p Hp).
+  - intros A pa p Ha Hp. simpl. apply in_or_app. apply in_app_or in Ha as [Ha|Ha].
+    + left. eapply Hok; eauto.
+    + destruct Ha as [Ha|[]]. inversion Ha; subst. right. apply Nal. exact Hp.
+Qed.
+
+(* when moreover no Savepoint::drop is between its sections and no reader thread holds a read transaction (every thread of
+   the commit's run has finished and every read transaction it began has ended), the successor state satisfies wf_init
+   itself: thread-local state cleared *)
+Theorem commit_reestablishes_wf_init : forall s0 e n,
+  ginv s0 e -> g_pc e = 15 -> next_ok e n -> g_mid e = [] -> g_readers e = [] -> wf_init (gnext e n).
+Proof.
+  intros s0 e n H Hpc Hn Hm Hr.
+  pose proof (commit_reestablishes_start s0 e n H Hpc Hn) as W.
+  destruct W as [Wpc [Wg1 Wg2] Wpins Wmono Wnd Wcross Wkeys Wakeys Wlive Wlast Wfa Waa].
+  constructor; auto.
+  all: try (simpl; rewrite Hr, Hm; auto; fail).
+  all: intro x; specialize (Wpins x); simpl in *; rewrite Hm, Hr in Wpins; unfold cntN in *; simpl in Wpins; lia.
+Qed.
+
+(* commit_chain_safe: any number of successive transactions, each committed under any schedule against any droppers and
+   readers: every commit starts from a state satisfying the starting condition, and every intermediate state of every
+   commit is safe with respect to the state that commit started from *)
+Theorem commit_chain_safe : forall txs s0, wf_start s0 -> chain_ok s0 txs ->
+  Forall2 (fun (start : cst) (tx : txn) =>
+             wf_start start /\
+             forall m, safe start (gfinal faithful (firstn m (snd (fst tx))) (fst (fst tx)) start))
+          (chain_starts s0 txs) txs.
+Proof.
+  induction txs as [|[[progs sched] n] txs IH]; intros s0 W C; simpl; [constructor|].
+  simpl in C. destruct C as (Cpc & Cn & Cr).
+  constructor.
+  - split; [exact W|]. intro m. simpl. apply epilogue_horizon_safe_start. exact W.
+  - apply IH; [|exact Cr].
+    apply (commit_reestablishes_start s0); [apply gfinal_ginv; exact W|exact Cpc|exact Cn].
+Qed.
 
 (* ---------------------------------------------------------------- the checkers are sound *)
 Lemma nodupb_sound : forall l, nodupb l = true -> NoDup l.
@@ -637,7 +757,8 @@ Proof.
   constructor.
   - apply N.eqb_eq; assumption.
   - repeat split; apply emptyb_sound; assumption.
-  - destruct (list_eq_dec N.eq_dec (g_live s) (map snd (g_pending s) ++ map snd (g_valid s) ++ g_held s)); [assumption|discriminate].
+  - destruct (list_eq_dec N.eq_dec (g_live s) (map snd (g_pending s) ++ map snd (g_valid s) ++ g_held s)) as [e|]; [|discriminate].
+    intro x. rewrite e. unfold cntN. rewrite !count_occ_app. lia.
   - apply monob_sound; assumption.
   - apply nodupb_sound; assumption.
   - intros A pa F pf p Ha Hf Hp Hp'.
@@ -647,6 +768,10 @@ Proof.
   - intros F pf Hf.
     match goal with X : forallb (fun f => N.leb (fst f) (g_last s) || _) _ = true |- _ =>
       rewrite forallb_forall in X; specialize (X _ Hf); simpl in X; apply orb_true_iff in X as [X|X] end;
+      [left; apply N.leb_le; assumption | right; apply N.eqb_eq; assumption].
+  - intros A pa Ha.
+    match goal with X : forallb (fun a => N.leb (fst a) (g_last s) || _) (g_alloc s) = true |- _ =>
+      rewrite forallb_forall in X; specialize (X _ Ha); simpl in X; apply orb_true_iff in X as [X|X] end;
       [left; apply N.leb_le; assumption | right; apply N.eqb_eq; assumption].
   - intros r Hr.
     match goal with X : forallb _ (g_live s) = true |- _ => rewrite forallb_forall in X; specialize (X _ Hr) end.
